@@ -343,7 +343,7 @@ def run(tier: str) -> int:
         run_.count("same-size-pair:" + status)
         if status == "violation":
             run_.fail(f"{PROP}:same-size-rules:{cell}:{a[:4]}:{b[:4]}", f"rules {a[:4]} and {b[:4]} on {cell} (both {n} points) in one kernel: {what}",
-                      {"spec": pair_form_spec(cell, a, b, same_integrand=True)}, bucket=f"{PROP}:same-size-rules")
+                      {"spec": pair_form_spec(cell, tuple(a) + (None,), tuple(b) + (None,), same_integrand=True)}, bucket=f"{PROP}:same-size-rules")
     probe_bessel_strict_c17(run_)
     n = 8 if tier == "quick" else 180
     for part in run_shards(shard, 16, n=n, seed=verif_seed()):
